@@ -479,7 +479,7 @@ def decide(R, terms, bad, errors, describe, model_body, key_fn, size_fn, header,
         for i in idxs[:max_report if len(seen_keys) == 1 else 1]:
             R.violation(k, "%s fails on the implementation's own output for %s" % (R.prop, describe(i)[:800]),
                         replay_of(i, failed_holds))
-    if agree_fail and not holds_fail:
+    if agree_fail:
         i = min(agree_fail, key=size_fn)
         R.violation("correspondence",
                     "model and implementation disagree on %d cases (smallest: %s) but the property predicate "
